@@ -312,12 +312,27 @@ def total_mem_usage(df, index=True, deep=False):
     return mem_usage
 
 
+def _idxmaxmin(x, fn, skipna, **kwargs):
+    # The label and the value of the minimum/maximum of (each column of) ``x``
+    value = getattr(x, "max" if fn == "idxmax" else "min")(skipna=skipna, **kwargs)
+    all_na = pd.isna(value)
+    if not (PANDAS_GE_300 and skipna and np.any(all_na)):
+        return getattr(x, fn)(skipna=skipna, **kwargs), value
+    # This part of a column is all-NA, for which pandas>=3 raises although the
+    # column as a whole may hold values.  A missing value never wins when the
+    # parts are combined (``idxmaxmin_agg`` raises if nothing else is left), so
+    # any label will do.
+    if not is_series_like(value):
+        return x.index[0], value
+    idx = getattr(x[list(value.index[~all_na])], fn)(skipna=skipna)
+    idx = idx.reindex(value.index, fill_value=x.index[0]).astype(x.index.dtype)
+    return idx, value
+
+
 def idxmaxmin_chunk(x, fn=None, skipna=True, numeric_only=False):
     numeric_only_kwargs = {} if is_series_like(x) else {"numeric_only": numeric_only}
-    minmax = "max" if fn == "idxmax" else "min"
     if len(x) > 0:
-        idx = getattr(x, fn)(skipna=skipna, **numeric_only_kwargs)
-        value = getattr(x, minmax)(skipna=skipna, **numeric_only_kwargs)
+        idx, value = _idxmaxmin(x, fn, skipna, **numeric_only_kwargs)
     else:
         idx = value = meta_series_constructor(x)([], dtype="i8")
     if is_series_like(idx):
@@ -326,13 +341,11 @@ def idxmaxmin_chunk(x, fn=None, skipna=True, numeric_only=False):
 
 
 def idxmaxmin_row(x, fn=None, skipna=True):
-    minmax = "max" if fn == "idxmax" else "min"
     if len(x) > 0:
         x = x.set_index("idx")
         # potentially coerced to object, so cast back
-        value = x.value.infer_objects()
-        idx = [getattr(value, fn)(skipna=skipna)]
-        value = [getattr(value, minmax)(skipna=skipna)]
+        idx, value = _idxmaxmin(x.value.infer_objects(), fn, skipna)
+        idx, value = [idx], [value]
     else:
         idx = value = meta_series_constructor(x)([], dtype="i8")
     return meta_frame_constructor(x)(
@@ -354,7 +367,10 @@ def idxmaxmin_combine(x, fn=None, skipna=True):
 
 
 def idxmaxmin_agg(x, fn=None, skipna=True, scalar=False, numeric_only=no_default):
-    res = idxmaxmin_combine(x, fn, skipna=skipna)["idx"]
+    res = idxmaxmin_combine(x, fn, skipna=skipna)
+    if PANDAS_GE_300 and skipna and res["value"].isna().any():
+        raise ValueError("Encountered all NA values")
+    res = res["idx"]
     if len(res) == 0:
         raise ValueError("attempt to get argmax of an empty sequence")
     if scalar:
